@@ -995,8 +995,8 @@ fn eval_c16(job: &Job) -> JobResult {
             }
             // identical fingerprint and main thread id at the start of every iteration
             for (i, n) in full.notes.iter().enumerate() {
-                let fp: Vec<&(u8, u64, u64)> = n.iter().filter(|x| x.0 == 200 || x.0 == 201).collect();
-                let fp0: Vec<&(u8, u64, u64)> = full.notes[0].iter().filter(|x| x.0 == 200 || x.0 == 201).collect();
+                let fp: Vec<&(u8, u64, u64)> = n.iter().filter(|x| x.0 == 200 || x.0 == 201 || x.0 == 202).collect();
+                let fp0: Vec<&(u8, u64, u64)> = full.notes[0].iter().filter(|x| x.0 == 200 || x.0 == 201 || x.0 == 202).collect();
                 if fp != fp0 {
                     res.violations.push(viol("dirty_initial_state", "fingerprint".into(), "every iteration starts from the same initial state".into(), format!("iteration {}: {:?} vs first {:?}", i + 1, fp, fp0), json!({})));
                     break;
